@@ -372,6 +372,22 @@ class Model:
                 elif t.target in mp:
                     t.target = mp[t.target]
 
+    def delete_symbols(self, names):
+        """delete_symbol (after everything else): the labels disappear and
+        so does every expression that mentions one of the symbols."""
+        for _, u in self.units():
+            keep = []
+            for t in u.toks:
+                if t.kind == "label" and t.name in names:
+                    continue
+                if t.sx:
+                    t.sx = [(rel, size, ed) for rel, size, ed in t.sx if not (ed[1] in names or (ed[0] == "diff" and ed[2] in names))]
+                if t.target in names:
+                    t.target = None
+                keep.append(t)
+            u.toks = keep
+        self.proxy_syms -= set(names)
+
     def add_unit(self, sect, toks, create=True, name=None):
         if sect not in self.sections:
             self.sections[sect] = []
